@@ -99,7 +99,9 @@ class SSCChart(BaseChart):
             raise ValueError("expected NOTEDATA property first")
 
         for param in iterator:
-            if param.key in BaseSimfile.MULTI_VALUE_PROPERTIES:
+            if param.value is None:
+                self[param.key] = None
+            elif param.key in BaseSimfile.MULTI_VALUE_PROPERTIES:
                 self[param.key] = ":".join(param.components[1:])
             else:
                 self[param.key] = param.value
@@ -115,7 +117,9 @@ class SSCChart(BaseChart):
             if value is self.notes:
                 notes_key = key
                 continue
-            if key in BaseSimfile.MULTI_VALUE_PROPERTIES:
+            if value is None:
+                param = MSDParameter((key,))
+            elif key in BaseSimfile.MULTI_VALUE_PROPERTIES:
                 param = MSDParameter((key, *value.split(":")))
             else:
                 param = MSDParameter((key, value))
@@ -216,8 +220,10 @@ class SSCSimfile(BaseSimfile):
         partial_chart: Optional[SSCChart] = None
         for param in parser:
             key = param.key.upper()
-            if key in BaseSimfile.MULTI_VALUE_PROPERTIES:
-                value: Optional[str] = ":".join(param.components[1:])
+            if param.value is None:
+                value: Optional[str] = None
+            elif key in BaseSimfile.MULTI_VALUE_PROPERTIES:
+                value = ":".join(param.components[1:])
             else:
                 value = param.value
             if key == "NOTEDATA":
